@@ -35,6 +35,51 @@ CHECKS = {
                 technique="TLA+ spec + TLC model checking; TLC trace validation of real executions (MonRedelivery)"),
 }
 
+CHECKS.update({
+    "C03": dict(cat="model_checking", ref="DESIGN.md §6 C03",
+                text="TLC model-checks spec/Session.tla (every command x every userid x every source x Good/Stale/Wrong "
+                     "claims x clock advances across the expiry; PrivilegedOnlyIfAnswered, AuthedImpliesAnswered, "
+                     "RawImpliesAuthed); TLC-generated message histories (MCSessionSim, -simulate) are concretised and sent "
+                     "to the real iodined by scripted peers; TLC judges every privileged act against MonAuth and validates "
+                     "every execution against Session.tla itself (full users[] projection after each step).",
+                technique="TLA+ spec (Session.tla) + TLC model checking; TLC-generated histories replayed into the real server; "
+                          "TLC trace validation against MonAuth and against Session.tla"),
+    "C04": dict(cat="model_checking", ref="DESIGN.md §6 C04",
+                text="TLC model-checks spec/Session.tla (SpoofRefused, RebindOnlyByRawLogin, Routing, ForwardOnlyToOwner, "
+                     "NoTakeover, ExpiredRefused, ExpiredReusable, LookupExact); the TLC-generated histories (with 29..61 s "
+                     "ticks around the expiry, source checking on and off, 1 and 5 slots) run on the real iodined and are judged "
+                     "by TLC against MonIsolation and bound to Session.tla.",
+                technique="TLA+ spec (Session.tla) + TLC model checking; TLC-generated histories replayed into the real server; "
+                          "TLC trace validation against MonIsolation and Session.tla"),
+    "C05": dict(cat="exploration", ref="DESIGN.md §6 C05",
+                text="Session.tla is model-checked with an Opaque (non-request datagram) action enabled in every state; the "
+                     "TLC-generated histories bring the real, ASan+UBSan-instrumented iodined into handshake/transfer/lazy/raw "
+                     "states and bursts of generated hostile datagrams and tun packets are injected in between; memory safety "
+                     "and UB are observed by the sanitizers, bounded time by the step watchdog, 'keeps serving / other sessions "
+                     "unaffected' is judged by TLC against MonServing and the Session.tla binding.",
+                technique="TLA+ spec-generated histories + sanitizer-instrumented execution; TLC trace validation (MonServing, "
+                          "Session.tla); memory safety itself is observed by ASan/UBSan, not specified"),
+    "C06": dict(cat="exploration", ref="DESIGN.md §6 C06",
+                text="The real client (ASan+UBSan) talks to the real server through a man in the middle that injects generated "
+                     "replies at every handshake step and during tunnelling (arbitrary bytes, hostile answer sections for every "
+                     "record type, every codec prefix, wrong ids, raw frames, mutations); 'unmatched replies are ignored' is "
+                     "judged by TLC against MonClientSafe; memory safety is observed by the sanitizers.",
+                technique="sanitizer-instrumented execution of the real client under generated replies; TLC trace validation "
+                          "(MonClientSafe); memory safety itself is observed by ASan/UBSan, not specified"),
+    "C12": dict(cat="exploration", ref="DESIGN.md §6 C12",
+                text="Self-composition: each execution (server: truncated / pointer-edited queries after a victim's long query in "
+                     "TLC-generated session states; client: truncated / RDLENGTH-edited answers at handshake and tunnel steps) is run "
+                     "with different receive-buffer residues (zeros / tail of the previous datagram / 0xA5) and TLC accepts a step "
+                     "only if every output agrees (MonResidue).",
+                technique="differential (self-composition) execution over receive-buffer residues; TLC trace validation (MonResidue)"),
+    "C13": dict(cat="exploration", ref="DESIGN.md §6 C13",
+                text="spec/Shell.tla states the grammar of permitted command lines; TLC checks over all field strings <= 4 chars of "
+                     "an attack alphabet that exactly strictly validated fields yield valid commands; generated login replies "
+                     "(attack strings in all four fields, every query type and downstream encoding) are served to the real client "
+                     "and every system() command line is parsed character by character by TLC (TraceShell).",
+                technique="TLA+ grammar spec (Shell.tla) checked by TLC; TLC trace validation of every system() command line of the real client"),
+})
+
 NOT_YET = "check not built yet in this revision (work in progress; see DESIGN.md §6 for the plan)"
 
 
